@@ -346,6 +346,10 @@ type realNode struct {
 
 var realNodeSuspendLimit = 5
 
+// realNodeExtraPeers: strangers appended to the peers list (peers.json) only, so that the list
+// of gossip peers and the validator set (genesis) of the nodes differ in size
+var realNodeExtraPeers = 0
+
 func newRealNodes(rng *rand.Rand, n int, syncLimit int) []*realNode {
 	ps := newParticipants(rng, n)
 	pl := []*peers.Peer{}
@@ -353,6 +357,10 @@ func newRealNodes(rng *rand.Rand, n int, syncLimit int) []*realNode {
 		p.peer.NetAddr = fmt.Sprintf("inmem-%d-%d", rng.Int63(), i)
 		p.peer.Moniker = fmt.Sprintf("n%d", i)
 		pl = append(pl, p.peer)
+	}
+	extra := newParticipants(rng, realNodeExtraPeers)
+	for i, x := range extra {
+		x.peer.NetAddr = fmt.Sprintf("inmem-x-%d-%d", rng.Int63(), i)
 	}
 	res := []*realNode{}
 	for i, p := range ps {
@@ -365,7 +373,11 @@ func newRealNodes(rng *rand.Rand, n int, syncLimit int) []*realNode {
 		_, trans := bnet.NewInmemTransport(pl[i].NetAddr)
 		a := newApp()
 		prox := inmem.NewInmemProxy(a, quiet())
-		nn := node.NewNode(conf, node.NewValidator(p.key, pl[i].Moniker), peers.NewPeerSet(append([]*peers.Peer{}, pl...)), peers.NewPeerSet(append([]*peers.Peer{}, pl...)), hg.NewInmemStore(1000), trans, prox)
+		cur := append([]*peers.Peer{}, pl...)
+		for _, x := range extra {
+			cur = append(cur, x.peer)
+		}
+		nn := node.NewNode(conf, node.NewValidator(p.key, pl[i].Moniker), peers.NewPeerSet(cur), peers.NewPeerSet(append([]*peers.Peer{}, pl...)), hg.NewInmemStore(1000), trans, prox)
 		nn.VerifCore().SetHeadAndSeq()
 		nn.SetState(_state.Babbling)
 		res = append(res, &realNode{n: nn, app: a, key: p, trans: trans})
